@@ -18,6 +18,72 @@ from vf.adapters import c05
 LEVEL = "model_checking"
 
 
+def link_level(ctx, rng, count):
+    """J3 (link Jacobians) and S3 (link-mass statics) on arms that carry link frames and masses, built through the
+    public setters from chain data the harness owns (so the oracle never reads the arm's fields)."""
+    import contextlib
+    import io
+    from scipy.linalg import expm
+    from vf import refeval as rf
+    from vf.adapters import c08
+    from basic_robotics.general import tm, Wrench
+    from basic_robotics.kinematics import Arm
+    done = 0
+    for _ in range(count):
+        n = rng.choice([1, 2, 3, 5, 6])
+        c = c08.phys_chain(rng, n)
+        S = c["S"]
+        link_home, acc = [], np.eye(4)
+        for i in range(n):
+            acc = acc @ c["M"][i]
+            link_home.append(acc.copy())
+        home = acc @ c["M"][n]
+        masses = [rng.uniform(0.5, 5) for _ in range(n + 1)]
+        cgs = [c08.c02.rand_se3(rng, 0.2) for _ in range(n + 1)]
+        base = zoo.rand_pose(rng, 1.5) if rng.random() < 0.5 else np.eye(4)
+        with contextlib.redirect_stdout(io.StringIO()):
+            arm = Arm(tm(np.eye(4)), S.copy(), tm(home.copy()), c["pts"].copy(), S[:3, :].copy())
+            arm.setJointProperties(np.ones(n) * -2 * np.pi, np.ones(n) * 2 * np.pi)
+            arm.setOrigins(link_homes_global=[tm(m.copy()) for m in link_home])
+            arm.setMassProperties(np.array(masses), [tm(m.copy()) for m in cgs], c["G"].copy())
+        th = np.array([rng.uniform(-2, 2) for _ in range(n)])
+        Js = zoo.jac_space_expected({"S": S, "mins": np.ones(n) * -10, "maxs": np.ones(n) * 10}, np.eye(4), th)
+        scale = max(1.0, float(np.abs(Js).max()))
+        for i in range(n):
+            E = np.eye(4)
+            for j in range(i + 1):
+                E = E @ expm(rf.hat6(S[:, j]) * th[j])
+            Tl = E @ link_home[i]
+            want = np.zeros((6, n))
+            want[:, :i + 1] = rf.adjoint(rf.trans_inv(Tl)) @ Js[:, :i + 1]
+            with contextlib.redirect_stdout(io.StringIO()):
+                got = np.asarray(arm.jacobianLink(i, th.copy()), dtype=float)
+            if got.shape != want.shape or float(np.abs(got - want).max()) / scale > 1e-6:
+                ctx.violation("J3_link_jacobian=Ad(inv T_link)*J_space", {"n": n, "link": i, "theta": th.tolist(), "S": S.tolist()},
+                              expected=want.tolist(), observed=got.tolist())
+                return done
+        # S3: the link-mass variant adds the moment of each link's weight about each joint axis
+        F = np.array([rng.uniform(-10, 10) for _ in range(6)]).reshape((6, 1))
+        g = np.asarray(arm.getGrav(), dtype=float)
+        with contextlib.redirect_stdout(io.StringIO()):
+            t_m = np.asarray(arm.staticForcesWithLinkMasses(Wrench(F.copy()), th.copy()), dtype=float).reshape(n)
+            t_0 = np.asarray(arm.staticForces(Wrench(F.copy()), th.copy()), dtype=float).reshape(n)
+            frames = [m.gTM() for m in arm.getJointTransforms()]
+        extra = np.zeros(n)
+        for k in range(1, n + 1):                      # link k hangs on joint k: weight at frame_k * cg_k
+            p = (frames[k] @ cgs[k])[:3, 3]
+            f = g * masses[k]
+            W = np.concatenate([np.cross(p, f), f])
+            for j in range(k):
+                extra[j] += float(Js[:, j] @ W)
+        if float(np.abs((t_m - t_0) - extra).max()) > 1e-6 * max(1.0, float(np.abs(extra).max())):
+            ctx.violation("S3_link_mass_statics_adds_the_weight_moments", {"n": n, "theta": th.tolist()}, expected=extra.tolist(),
+                          observed=(t_m - t_0).tolist())
+            return done
+        done += 1
+    return done
+
+
 def run(ctx):
     import basic_robotics.kinematics  # noqa: F401
     with ctx.timed("model"):
@@ -35,6 +101,9 @@ def run(ctx):
     c05._C06 = True
     with ctx.timed("replay"):
         n = c05.replay_all(ctx, allg, mk, per_arm_cap=ctx.pick(900, 8000))
+    with ctx.timed("link-level"):
+        n_link = link_level(ctx, random.Random(ctx.seed + 66), ctx.pick(40, 2000))
+    ctx.cov["link_level_arms_checked"] = n_link
     ngroups = sum(len(g) for _, g in allg)
     ctx.sample({"arm": mk[1][0], "ops": [{k: v for k, v in r.items() if k != "st"} for r in allg[1][1][11][0]],
                 "obligations": ["J1", "J2", "J3", "S1", "S2"]})
